@@ -89,7 +89,23 @@ def run_impl(case):
     for o, snap in leaves:
         if C.snapshot(o) != snap:
             raise C.PurityError("an operand of a sat builder changed")
-    return {"kind": type(r).__name__, "terms": C.jterms(C.enc_terms(r))}
+    out = {"kind": type(r).__name__, "terms": C.jterms(C.enc_terms(r))}
+    # what a builder returns belongs to the caller: one-operand gates on the tree's labels are built, their results changed in
+    # place (as in  total = OR('a'); total += ...), and the tree is built again -- it must come out the same
+    import qubovert as qv
+    labs = set()
+    labels_of(case["tree"], labs)
+    for l in sorted(labs):
+        for g in ("BUFFER", "OR", "AND", "XOR"):
+            try:
+                x = getattr(qv.sat, g)(C.dec(l))
+                x += 5
+            except (KeyError, ValueError, TypeError):
+                pass
+    r2 = pyeval(case["tree"], [])
+    if type(r2) is not type(r) or dict(r2) != dict(r):
+        out["again"] = "after the results of one-operand gates on the same labels were changed in place, the same expression gives %r instead of %r" % (dict(r2), dict(r))
+    return out
 
 
 def lit(n):
@@ -169,6 +185,8 @@ def oracle(case, out):
         if not has_quad(tree):
             v.append("sat expression raised %s" % out["error"])
         return v
+    if out.get("again"):
+        v.append(out["again"])
     labs = sorted(labels_of(tree, set()))
     if len(labs) > 8:
         return v
